@@ -10,9 +10,12 @@ cd $wt
 lib=$(CARGO_NET_OFFLINE=true cargo test --offline --lib 2>&1 | grep "^test result" | head -1)
 doc=$(CARGO_NET_OFFLINE=true cargo test --offline --doc 2>&1 | grep "^test result" | head -1)
 with=$(CARGO_NET_OFFLINE=true cargo test --offline --test $demo 2>&1 | grep "^test result" | head -1)
-git stash push -q -- src
+git diff --quiet -- src && { echo "WORKTREE HAS NO CHANGE"; }
+git diff -- src > /tmp/seedcheck_$id.diff
+cmp -s /tmp/seedcheck_$id.diff seed_out/patch.diff || echo "note: worktree diff differs from seed_out/patch.diff (using the worktree diff for the with/without runs, patch.diff for /repo)"
+git apply -R /tmp/seedcheck_$id.diff
 without=$(CARGO_NET_OFFLINE=true cargo test --offline --test $demo 2>&1 | grep "^test result" | head -1)
-git stash pop -q
+git apply /tmp/seedcheck_$id.diff
 echo "existing(lib): $lib"; echo "existing(doc): $doc"; echo "demo with change: $with"; echo "demo without: $without"
 cd /verif
 git -C /repo apply $out/patch.diff || { echo "PATCH DOES NOT APPLY"; exit 1; }
